@@ -198,6 +198,15 @@ impl<'i> Sink<'i> {
 			if !Trivia::can_cast(lexeme.kind) {
 				break;
 			}
+			// A malformed comment is kept in the tree as trivia, but it is still a syntax error
+			if let Some(error) = lexeme.kind.error_description() {
+				self.errors.push(LocatedSyntaxError {
+					error: SyntaxError::Custom {
+						error: error.to_owned(),
+					},
+					range: lexeme.range,
+				});
+			}
 
 			self.token(lexeme.kind);
 		}
